@@ -14,6 +14,7 @@ ASSUMPTIONS = ["entry-wise set updates are generated within their documented use
 
 def run(ctx):
     hist.drive(ctx, "C07")
+    read_then_edit(ctx)
     # INDX round trip and construction from arrays also produce well-formed indexes
     import numpy as np
     import gen_cube as G
@@ -129,12 +130,63 @@ def run(ctx):
         ld.close()
 
 
+def read_then_edit(ctx):
+    """a history in which the live index is READ with force (its common rows are computed), then edited in place so that the
+    common value, the row count, the number of entries and the number of listed row ids all stay the same while the listed
+    rows change, and then needs its common rows again (shift_common to a third value; being appended to an index with
+    another common value)"""
+    import numpy as np
+    import gen_cube as G
+    import idx_common as I
+    for a0 in ([0, 1, 0, 2, 0, 1], [5, 5, 1, 5, 2, 1, 5], [0, 3, 0, 0, 3, 4]):
+        for reader in ("get", "items", "common_rowids", "to_dict"):
+            for finish in ("shift_common", "append"):
+                a = np.array(a0, dtype=np.int64)
+                vals, cnts = np.unique(a, return_counts=True)
+                common = int(vals[int(np.argmax(cnts))])
+                ix = G.make_index(a, common)
+                other_vals = [int(v) for v in vals if v != common]
+                v1 = other_vals[0]
+                r_common = int(np.nonzero(a == common)[0][0])
+                r_v1 = int(np.nonzero(a == v1)[0][0])
+                desc = {"read_then_edit": a0, "reader": reader, "finish": finish}
+                ctx.case(desc, nontrivial=True)
+                ctx.hit("read_then_edit")
+                try:
+                    if reader == "get":
+                        ix.get((common,), force=True)
+                    elif reader == "items":
+                        list(ix.items(force=True))
+                    elif reader == "common_rowids":
+                        ix.common_rowids()
+                    else:
+                        ix.to_dict(force=True)
+                    # swap the two cells: counts per value, entries and listed totals are unchanged
+                    ix.update({(common,): np.array([r_v1], dtype=np.uint32), (v1,): np.array([r_common], dtype=np.uint32)})
+                    a[r_v1], a[r_common] = common, v1
+                    if finish == "shift_common":
+                        third = other_vals[-1] if other_vals[-1] != v1 else int(vals.max()) + 1
+                        ix.shift_common(third)
+                        res, exp = ix, a
+                    else:
+                        target = G.make_index(np.array([v1, v1, common], dtype=np.int64), v1)
+                        target.append(ix)
+                        res, exp = target, np.concatenate([np.array([v1, v1, common], dtype=np.int64), a])
+                    probs = I.wf_problems(res)
+                    if not probs and not np.array_equal(I.dense_of(res), exp):
+                        probs = ["dense content %s, expected %s" % (I.dense_of(res).tolist(), exp.tolist())]
+                except Exception as e:
+                    probs = ["raised %s: %s" % (type(e).__name__, str(e)[:80])]
+                for pr in probs:
+                    ctx.oracle_fail("read (%s, force) - swap two cells with update - %s: %s" % (reader, finish, pr), desc, cls="C07-history")
+
+
 def replay(ctx, rep):
     import idx_common as I
     import random
     core.load_catii()
     c = rep["case"]
-    if "pre" not in c or c.get("op") in ("indx", "from_array"):
+    if "pre" not in c or c.get("op") in ("indx", "from_array") or "read_then_edit" in c:
         return True
     for seed in range(200):
         ix = I.from_json(c["pre"])
